@@ -60,18 +60,17 @@ def check_trace(tr, st, sink, with_index, res, tagp='C08'):
                 i, b - a, seg['end'] - a)))
             return out
         segs.append(seg)
-        # parents first
+        # parents first: objects are taken in the order the segment lists them
         for o in seg['objects']:
             if len(o['comps']) == 0:
                 root_declared = True
             elif len(o['comps']) == 1:
                 declared_groups.add(o['comps'][0])
+            elif o['comps'][0] not in declared_groups:
+                out.append(V(tagp + '.group-after-channel', 'call %d: channel %s is listed before its group was declared' % (
+                    i, o['path'])))
         if not root_declared:
             out.append(V(tagp + '.root-not-first', 'call %d: the first segment of the file does not declare "/"' % i))
-        for o in seg['objects']:
-            if len(o['comps']) == 2 and o['comps'][0] not in declared_groups:
-                out.append(V(tagp + '.group-after-channel', 'call %d: channel %s written before its group was declared' % (
-                    i, o['path'])))
         if any(o['index'] == 'full' and o['type'] == 'str' for o in seg['objects']):
             res.probe('string-channel')
         if any(o['index'] == 'full' and o['count'] == 0 for o in seg['objects']):
